@@ -61,6 +61,33 @@ type proxy struct {
 
 	// counters, read after close
 	accepted, upDialFail int
+
+	// ring of recent happenings, to describe a failing case
+	t0   time.Time
+	ring [48]string
+	rn   int
+}
+
+// note: p.mu held.
+func (p *proxy) note(format string, a ...any) {
+	p.ring[p.rn%len(p.ring)] = fmt.Sprintf("+%.1fms ", float64(time.Since(p.t0).Microseconds())/1000) + fmt.Sprintf(format, a...)
+	p.rn++
+}
+
+func (p *proxy) recent() string {
+	p.mu.Lock()
+	defer p.mu.Unlock()
+	var b []byte
+	start := 0
+	if p.rn > len(p.ring) {
+		start = p.rn - len(p.ring)
+	}
+	for i := start; i < p.rn; i++ {
+		b = append(b, "      "...)
+		b = append(b, p.ring[i%len(p.ring)]...)
+		b = append(b, '\n')
+	}
+	return string(b)
 }
 
 func newProxy() (*proxy, error) {
@@ -68,7 +95,7 @@ func newProxy() (*proxy, error) {
 	if err != nil {
 		return nil, err
 	}
-	p := &proxy{addr: ln.Addr().String(), ln: ln, conns: map[*pconn]bool{}}
+	p := &proxy{addr: ln.Addr().String(), ln: ln, conns: map[*pconn]bool{}, t0: time.Now()}
 	p.cond = sync.NewCond(&p.mu)
 	p.wg.Add(1)
 	go p.acceptLoop(ln)
@@ -97,6 +124,7 @@ func (p *proxy) acceptLoop(ln net.Listener) {
 		}
 		p.mu.Lock()
 		if p.closed || p.mode == mSever {
+			p.note("accept+reset")
 			p.mu.Unlock()
 			rst(c)
 			continue
@@ -104,6 +132,7 @@ func (p *proxy) acceptLoop(ln net.Listener) {
 		pc := &pconn{c: c}
 		p.conns[pc] = true
 		p.accepted++
+		p.note("accept %p (mode %v)", pc, p.mode)
 		p.wg.Add(1)
 		p.mu.Unlock()
 		go p.serve(pc)
@@ -116,6 +145,7 @@ func (p *proxy) killLocked(pc *pconn) {
 		return
 	}
 	pc.dead = true
+	p.note("kill %p", pc)
 	rst(pc.c)
 	if pc.u != nil {
 		_ = pc.u.Close()
@@ -157,6 +187,7 @@ func (p *proxy) serve(pc *pconn) {
 	if err != nil || pc.dead {
 		if err != nil {
 			p.upDialFail++
+			p.note("upstream dial for %p failed: %v", pc, err)
 		}
 		if u != nil {
 			_ = u.Close()
@@ -166,16 +197,17 @@ func (p *proxy) serve(pc *pconn) {
 		return
 	}
 	pc.u = u
+	p.note("upstream connected for %p", pc)
 	p.wg.Add(1)
 	p.mu.Unlock()
 	go func() {
 		defer p.wg.Done()
-		p.pump(pc, pc.c, pc.u)
+		p.pump(pc, pc.c, pc.u, "request")
 	}()
-	p.pump(pc, pc.u, pc.c)
+	p.pump(pc, pc.u, pc.c, "reply")
 }
 
-func (p *proxy) pump(pc *pconn, src, dst net.Conn) {
+func (p *proxy) pump(pc *pconn, src, dst net.Conn, what string) {
 	buf := make([]byte, 4096)
 	for {
 		n, err := src.Read(buf)
@@ -187,6 +219,7 @@ func (p *proxy) pump(pc *pconn, src, dst net.Conn) {
 			}
 			_ = dst.SetWriteDeadline(time.Now().Add(time.Second))
 			_, werr := dst.Write(buf[:n])
+			p.note("%s %dB forwarded on %p", what, n, pc)
 			if werr != nil {
 				p.killLocked(pc)
 				p.mu.Unlock()
@@ -244,6 +277,7 @@ func (p *proxy) setMode(m pmode, refuse bool) error {
 	}
 	p.mu.Lock()
 	p.mode = m
+	p.note("mode=%v refuse=%v", m, refuse)
 	if m == mSever {
 		for pc := range p.conns {
 			p.killLocked(pc)
